@@ -38,7 +38,7 @@ func cfgs() []hn.GateCfg {
 	return out
 }
 
-var alphabet = []string{"ev a", "ev b", "ev a flush", "ev b flush", "ev c", "ev c flush", "nongate", "emptyid", "tick", "expire", "flushall", "close"}
+var alphabet = []string{"ev a", "ev b", "ev a flush", "ev b flush", "ev c", "ev c flush", "nongate", "emptyid", "emptyid flush", "tick", "expire", "flushall", "close"}
 
 var harness = &seqmc.Harness{
 	Property: prop,
